@@ -19,7 +19,7 @@ THEOREMS = ["C04_update_reconstructs_B", "C04_requests_exactly_the_missing_chunk
             "C04_link_copy", "C04_link_reset_failed", "C04_link_parse_prefix", "C04_link_header_fetch",
             # composition: multipart lift, equivalence up to non-valid extents, the byte-level run
             "C04_link_place_multipart", "C04_loop_respects_eqv", "C04_link_copy_eqv", "C04_plain_server_serves",
-            "C04_byte_level_reconstructs_B"]
+            "C04_byte_level_reconstructs_B", "C04_link_fetch_header"]
 ASSUMPTIONS = [
     "chunk-level model (Dl/Update.v): each library call is represented by its per-chunk effect. Every step is linked by a theorem "
     "to the byte-level component model of its vertical (Dl/UpdateLink*.v, C04_link_*: scan C09, range computation C10, placement "
@@ -28,8 +28,8 @@ ASSUMPTIONS = [
     "every request uses a fresh zckDL (that a zck_dl_reset one behaves the same is C05_session / retry_place_*); the range index of a "
     "limited request is taken as the first entries of Session.missing_ridx (same chunks as Range.missing_range: C04_link_missing_range); "
     "the ra_index arithmetic is Update.advance; the header fetch is one write of B's first max(89, header) bytes; old files whose "
-    "extents are cut by the end of the file are excluded (src_complete); Update.fetch_header's write_prefix itself (header shorter than "
-    "the probe) is not linked - the composition starts from the fetched file instead",
+    "extents are cut by the end of the file are excluded (src_complete); Update.fetch_header (incl. write_prefix for headers shorter "
+    "than the probe) is linked to that write by C04_link_fetch_header, the composed theorem itself starts from the fetched file",
     "the checksum functions are arbitrary functions; every conclusion that needs injectivity is stated as 'or two different "
     "byte strings with the same chunk checksum exist'",
     "B is a valid file (wf_new), the server returns the requested extents of B and answers 200 iff the request has more ranges "
